@@ -8,7 +8,7 @@ import (
 
 func init() {
 	register(&propDef{ID: "C03", Run: runC03,
-		Explain:    "Structural necessary conditions of 'exactly one next hop by fixed precedence', decided on the SSA/CFG of /repo: (1) on every request path of HandleMessage at most one dispatch call, none in a loop, and the same for sendToBackend/sendMessage; (2) precedence as guard polarity: static route consulted only when the Route lookup failed, Route results returned when it succeeded, backend only when the hop lookup failed and isMyMessage holds, nothing dispatched otherwise; (3) destination provenance: sendMessage receives results 0,1,2 of the same hop lookup; Route path = entry 0, host/GetPort()/GetTransport() of its SIP URI, error for non-SIP URIs; static path = FindRoute(To host) with the result permutation protocol->transport; (4) after a successful write/dispatch no second one is reachable in any function below HandleMessage (retry only on the failure edge); (5) SIP-URI defaults udp/5060/5061-under-tls; (6) the listener clause of isMyMessage compares host and port with the receiving transport.",
+		Explain:    "Structural necessary conditions of 'exactly one next hop by fixed precedence', decided on the SSA/CFG of /repo: (1) on every request path of HandleMessage at most one dispatch call, none in a loop, and the same for sendToBackend/sendMessage; (2) precedence as guard polarity: static route consulted only when the Route lookup failed, Route results returned when it succeeded, backend only when the hop lookup failed and isMyMessage holds, nothing dispatched otherwise; (3) destination provenance: sendMessage receives results 0,1,2 of the same hop lookup; Route path = entry 0, host/GetPort()/GetTransport() of its SIP URI, error for non-SIP URIs; static path = FindRoute(To host) with the result permutation protocol->transport; (4) after a successful write/dispatch no second one is reachable in any function below HandleMessage (retry only on the failure edge); (5) SIP-URI defaults udp/5060/5061-under-tls; (6) the listener clause of isMyMessage compares host and port with the receiving transport. Shared further: hop transport (C02); loop-capture: no escaping closure, and no pointer kept by a package function, refers to a variable a loop assigns (go.mod selects the per-loop variable semantics).",
 		NotDecided: "matching semantics of service names (literal, user@host, regular expression); delivery."})
 }
 
